@@ -29,7 +29,7 @@ LEVEL = "exploration"
 RULE = ("one run = one output directory with a seeded pre-state (absent, empty, user files, files named like future "
         "outputs, stale .h/.c, sub-directory) and a seeded history of 3-8 commands: gen(generator in dbc/can_c/cpp/nop, "
         "schema with zero or one injected check failure at a seeded position (root file or imported module), via CLI or API, "
-        "fresh or reused manager), touch, rm; in fault runs the audit hook fails the k-th mutating event; evaluations = gen "
+        "fresh or reused manager), touch, rm, mangle(an existing file: CRLF/CR endings, truncation, emptied, non-UTF-8 prefix, ...) followed by a repetition of an earlier gen; in fault runs the audit hook fails the k-th mutating event; evaluations = gen "
         "commands judged; distinct_nontrivial counts distinct (generator, injected failure kind or none, position class, "
         "reference verdict, directory pre-state class, via, manager mode, write fault or none) tuples where the directory was "
         "non-empty before the command")
@@ -66,7 +66,7 @@ def preload():
 EXPECTED_PROBES = {t: ["accept:simgen", "reject:simgen", "simgen_second_check_in_category_rejects", "accept:dbc", "accept:can_c", "accept:cpp", "accept:nop", "reject:dbc", "reject:can_c", "reject:cpp",
                        "reject:nop", "reject_after_successful_generation", "reject_plugin_check", "reject_general_check",
                        "reject_in_module", "manager_reused_second_generator", "via_cli", "via_api", "stale_c_files_present",
-                       "write_fault_fired", "outdir_absent"] for t in TIERS}
+                       "write_fault_fired", "outdir_absent", "mangled_existing_file:crlf", "regenerated_over_mangled_file"] for t in TIERS}
 
 GENERATORS = ["dbc", "can_c", "cpp", "nop", "simgen"]
 SIM_CATEGORIES = ["struct", "field", "enum", "impl", "signal_block", "type", "device"]
@@ -418,7 +418,7 @@ def gen_ops(rng, tier_cfg):
         ops.append(["mkdir"])
     n = rng.randint(3, 8)
     for i in range(n):
-        k = weighted(rng, [("gen", 7), ("touch", 1.5), ("rm", 0.7)])
+        k = weighted(rng, [("gen", 7), ("touch", 1.5), ("rm", 0.7), ("mangle", 1.2 if i > 0 else 0)])
         if k == "gen":
             g = rng.choice(enabled)
             inj = None
@@ -445,6 +445,14 @@ def gen_ops(rng, tier_cfg):
             ops.append(op)
         elif k == "touch":
             ops.append(["touch", rng.choice(["notes.txt", "default.fcp", "fcp.h", "x_can.c", "can_frame.h", "sub/y.h"]), rng.randrange(1 << 30)])
+        elif k == "mangle":
+            # an existing file (typically an earlier output) is damaged in place, then the same generation is repeated:
+            # the accepted command must leave exactly the returned contents behind, whatever was there before
+            prev_gens = [o for o in ops if o[0] == "gen"]
+            ops.append(["mangle", rng.choice(["crlf", "cr", "trailing_ws", "truncate", "zero", "latin1", "upper", "same_size_garbage"]),
+                        rng.randrange(1 << 30)])
+            if prev_gens:
+                ops.append(list(rng.choice(prev_gens)))
         else:
             ops.append(["rm"])
     return ops
@@ -509,6 +517,33 @@ def _execute(sysm, clock, ops, work, tier, probes, tr, distinct):
             p.parent.mkdir(parents=True, exist_ok=True)
             p.write_bytes(hashlib.sha256(str(op[2]).encode()).digest() * 3)
             last_change[op[1]] = (oi, "touch")
+            continue
+        if op[0] == "mangle":
+            snap = snapshot(out) or {}
+            files = sorted(k for k, v in snap.items() if v[0] == "file")
+            if files:
+                victim = files[op[2] % len(files)]
+                raw = (out / victim).read_bytes()
+                kind = op[1]
+                if kind == "crlf":
+                    new = raw.replace(b"\r\n", b"\n").replace(b"\n", b"\r\n")
+                elif kind == "cr":
+                    new = raw.replace(b"\r\n", b"\n").replace(b"\n", b"\r")
+                elif kind == "trailing_ws":
+                    new = raw + b" \n"
+                elif kind == "truncate":
+                    new = raw[:len(raw) // 2]
+                elif kind == "zero":
+                    new = b""
+                elif kind == "latin1":
+                    new = b"\xff\xfe" + raw
+                elif kind == "upper":
+                    new = raw.upper()
+                else:
+                    new = bytes((b ^ 0x20) if 64 < b < 123 else b for b in raw)
+                (out / victim).write_bytes(new)
+                last_change[victim] = (oi, "mangle")
+                probes["mangled_existing_file:" + kind] += 1
             continue
         if op[0] == "rm":
             snap = snapshot(out) or {}
@@ -606,6 +641,7 @@ def _execute(sysm, clock, ops, work, tier, probes, tr, distinct):
         if rec.fired:
             probes["write_fault_fired"] += 1
         b, a = before or {}, after or {}
+        mangled_before = {k2: v2 for k2, v2 in last_change.items() if v2[1] == "mangle"}
         changed = sorted(k for k in set(b) | set(a) if b.get(k) != a.get(k))
         created_or_modified = [k for k in changed if k in a]
         deleted = [k for k in changed if k not in a]
@@ -692,6 +728,8 @@ def _execute(sysm, clock, ops, work, tier, probes, tr, distinct):
                 continue
             probes["accept:" + g] += 1
             had_success = True
+            if any(k2 in rel and ops[oi2][0] == "mangle" for k2, (oi2, _) in list(mangled_before.items())):
+                probes["regenerated_over_mangled_file"] += 1
             for rp, contents in rel.items():
                 p = out / rp
                 if not p.is_file():
